@@ -21,7 +21,7 @@ RULE = ("A base case from the planted-structure generator (all cell / pattern / 
 ASSUMPTIONS = ["a difference confined to grey groups (neither clear-in nor clear-out under both runs' hints) is tolerated",
                "supercell sizes are bounded to ~300 atoms in the generated part (cost)"]
 
-XF_KINDS = ["shift", "shift", "permute", "pattern-motion", "pattern-motion", "hints", "seeds", "replicate", "replicate"]
+XF_KINDS = ["shift", "shift", "permute", "permute-in-place", "pattern-motion", "pattern-motion", "hints", "seeds", "replicate", "replicate"]
 
 
 @st.composite
@@ -51,7 +51,7 @@ def xf_case(draw):
                 v = geom.cart(cell, f)
             v = v.tolist()
         xf["v"] = v
-    elif kind == "permute":
+    elif kind in ("permute", "permute-in-place"):
         xf["perm"] = list(draw(st.permutations(range(N))))
     elif kind == "pattern-motion":
         R, pcls = draw(gen_geom.pose(base["ppos"], classes=["axis", "axis", "flip", "random", "random", "near-parallel", "near-antiparallel"]))
@@ -121,6 +121,14 @@ def run_transformed(case, s, p, xf, stats):
         perm = xf["perm"]     # new atom j is old atom perm[j]
         s2 = mf.atoms_from([case["spos"][k] for k in perm], [case["sels"][k] for k in perm], cell)
         idx = mf.find(s2, p, atol, hints, seeds, what="search-after-permutation")
+        return [tuple(sorted(perm[int(x)] for x in m)) for m in idx], 1, hints
+    if kind == "permute-in-place":
+        # the same object that was searched before is re-listed by writing the permuted arrays back in place
+        perm = xf["perm"]
+        types = list(dict.fromkeys(case["sels"]))
+        s.positions[:] = np.array([case["spos"][k] for k in perm], float)
+        s.atom_types[:] = np.array([types.index(case["sels"][k]) for k in perm])
+        idx = mf.find(s, p, atol, hints, seeds, what="search-after-in-place-relisting")
         return [tuple(sorted(perm[int(x)] for x in m)) for m in idx], 1, hints
     if kind == "pattern-motion":
         pp = np.array(case["ppos"]) @ np.array(xf["R"]).T + np.array(xf["t"])
@@ -220,7 +228,7 @@ def oracle(case, stats):
     stats.count("grey-diff-groups:%s" % ("0" if ngrey == 0 else "1+"))
     stats.count("base-matches:%s" % (len(base) if len(base) < 4 else "4+"))
     identity = (xf["kind"] == "replicate" and mult == 1) or (xf["kind"] == "hints" and xf["hints"] == hints) or \
-               (xf["kind"] == "permute" and xf["perm"] == sorted(xf["perm"]))
+               (xf["kind"] in ("permute", "permute-in-place") and xf["perm"] == sorted(xf["perm"]))
     if len(base) >= 1 and not identity:
         stats.mark_nontrivial(case)
 
